@@ -1358,6 +1358,16 @@ func c04Saved(f *xl.File) []string {
 	}
 	defer g.Close()
 	var out []string
+	if zr, err := zip.NewReader(bytes.NewReader(buf.Bytes()), int64(buf.Len())); err == nil {
+		for _, e := range zr.File {
+			if e.Name == "xl/styles.xml" || e.Name == "xl/sharedStrings.xml" {
+				rc, _ := e.Open()
+				b, _ := io.ReadAll(rc)
+				rc.Close()
+				out = append(out, e.Name+" = "+string(b))
+			}
+		}
+	}
 	for _, sh := range g.GetSheetList() {
 		d, err := xl.VerifC04Dump(g, sh)
 		out = append(out, sh+" = "+c04Fmt(c04Content(d), err))
@@ -1462,8 +1472,12 @@ func c04BatchCase(r *Run, kind string, sub uint64) {
 	}
 	savB := c04Saved(fb2)
 	fb2.Close()
-	if !reflect.DeepEqual(savA, savB) {
-		cul := c04Culprit(build, batch, savA, c04Saved)
+	if !reflect.DeepEqual(savA, savB) && reflect.DeepEqual(c04NoSST(savA), c04NoSST(savB)) {
+		// only difference: the shared-strings part (and its relationship / content type) that
+		// the first value read adds to a workbook opened without one (known finding)
+		r.Fail("purity:saved:sst-part-created", "a save after read-only calls contains xl/sharedStrings.xml, a save without them does not; state: "+what, 0, replay)
+	} else if !reflect.DeepEqual(savA, savB) {
+		cul := c04Culprit(build, batch, c04NoSST(savA), func(f *xl.File) []string { return c04NoSST(c04Saved(f)) })
 		r.Fail("purity:saved:"+cul, fmt.Sprintf("saved content differs after read-only calls [%s]: %s; state: %s", strings.Join(names, ", "), c04FirstDiff(savA, savB), what), 0, replay)
 	}
 	// agreement on the built state (API states are dense and carry every reference)
@@ -1596,6 +1610,46 @@ func c04Witness(r *Run, name string) {
 		if v1 != v2 {
 			r.Fail("purity:obs:GetMergeCells:overlapping-merges", fmt.Sprintf("merged ranges D8:F10 and B7:D9 overlap; GetCellValue(E7)=%q; GetMergeCells (%d range); GetCellValue(E7)=%q", v1, len(m), v2), 0, replay)
 		}
+	case "condstyle-write": // open finding: GetConditionalStyle writes the default pattern type into the shared dxf
+		mk := func() *xl.File {
+			f := xl.NewFile()
+			if _, err := f.NewConditionalStyle(&xl.Style{Fill: xl.Fill{Type: "pattern", Color: []string{"FF0000"}, Pattern: 1}}); err != nil {
+				must(err)
+			}
+			buf, err := f.WriteToBuffer()
+			must(err)
+			f.Close()
+			// as Excel writes it: a dxf pattern fill without patternType
+			pkg := c04RewritePart(buf.Bytes(), "xl/styles.xml", func(b []byte) []byte {
+				return bytes.ReplaceAll(b, []byte(` patternType="solid"><bgColor`), []byte(`><bgColor`))
+			})
+			return c04Open(pkg)
+		}
+		a := mk()
+		sa := c04PartOfSave(a, "xl/styles.xml")
+		a.Close()
+		b := mk()
+		_, _ = b.GetConditionalStyle(0)
+		sb := c04PartOfSave(b, "xl/styles.xml")
+		b.Close()
+		if !strings.Contains(sa, "<patternFill><bgColor") {
+			r.Notes = append(r.Notes, "condstyle-write witness: dxf without patternType could not be built")
+		}
+		if sa != sb {
+			r.Fail("purity:saved:GetConditionalStyle:dxf-pattern-type", "styles.xml of a save differs after GetConditionalStyle(0): the getter writes patternType=\"solid\" into the shared dxf of a file whose dxf pattern fill has none", 0, replay)
+		}
+	case "sst-created": // open finding (package level): the first value read adds the shared-strings part
+		pkg := c04Package(c04Desc{{R: 1, Cells: []c04Cell{{Col: 1, Row: 1, Val: "42"}}}}.xml(nil))
+		a := c04Open(pkg)
+		sa := c04PartOfSave(a, "xl/sharedStrings.xml")
+		a.Close()
+		b := c04Open(pkg)
+		_, _ = b.GetCellValue("Sheet1", "A1")
+		sb := c04PartOfSave(b, "xl/sharedStrings.xml")
+		b.Close()
+		if sa != sb {
+			r.Fail("purity:saved:sst-part-created", fmt.Sprintf("workbook without xl/sharedStrings.xml: a save after GetCellValue contains the part (%d bytes), a save without the read does not", len(sb)), 0, replay)
+		}
 	case "search-panic":
 		f := xl.NewFile()
 		defer f.Close()
@@ -1632,7 +1686,7 @@ func runC04(r *Run, rng *Rng, replay string) {
 	// coverage of the getter list
 	r.Notes = append(r.Notes, fmt.Sprintf("read batch draws from %d exported read functions", len(c04Covered)))
 	// 0. witnesses (deterministic)
-	for _, w := range []string{"raw-rewrite", "materialise", "search-panic", "basecolor", "overlap-merge"} {
+	for _, w := range []string{"raw-rewrite", "materialise", "search-panic", "basecolor", "overlap-merge", "condstyle-write", "sst-created"} {
 		c04Witness(r, w)
 	}
 	for _, k := range []string{"rless-mixed", "missing-r-search"} {
@@ -1785,4 +1839,56 @@ func c04Content(d string) string {
 		rows = append(rows, r[:i+1]+strings.Join(cells, ","))
 	}
 	return "ok " + strings.Join(rows, "|")
+}
+
+func c04RewritePart(pkg []byte, name string, fn func([]byte) []byte) []byte {
+	zr, err := zip.NewReader(bytes.NewReader(pkg), int64(len(pkg)))
+	must(err)
+	var out bytes.Buffer
+	zw := zip.NewWriter(&out)
+	for _, e := range zr.File {
+		rc, err := e.Open()
+		must(err)
+		b, err := io.ReadAll(rc)
+		must(err)
+		rc.Close()
+		if e.Name == name {
+			b = fn(b)
+		}
+		w, err := zw.CreateHeader(&zip.FileHeader{Name: e.Name, Method: zip.Store})
+		must(err)
+		w.Write(b)
+	}
+	must(zw.Close())
+	return out.Bytes()
+}
+
+func c04PartOfSave(f *xl.File, name string) string {
+	buf, err := f.WriteToBuffer()
+	if err != nil {
+		return "save ERR"
+	}
+	zr, err := zip.NewReader(bytes.NewReader(buf.Bytes()), int64(buf.Len()))
+	if err != nil {
+		return "zip ERR"
+	}
+	for _, e := range zr.File {
+		if e.Name == name {
+			rc, _ := e.Open()
+			b, _ := io.ReadAll(rc)
+			rc.Close()
+			return string(b)
+		}
+	}
+	return ""
+}
+
+func c04NoSST(xs []string) []string {
+	var out []string
+	for _, x := range xs {
+		if !strings.HasPrefix(x, "xl/sharedStrings.xml = ") {
+			out = append(out, x)
+		}
+	}
+	return out
 }
